@@ -28,7 +28,7 @@ def _site(name, rel, fn, pat):
         return _bool(name, re.search(pat, body, re.S) is not None)
 
 
-_site("site_add_meta", _AR, "add_part", r"writer\s*\.write_all\(\s*&metadata_buf\s*\)\s*\?\s*;")
+_site("site_add_meta", _AR, "add_part", r"writer\s*\.write_all\(\s*&\w+\s*\)\s*\?\s*;")
 _site("site_add_data", _AR, "add_part", r"writer\s*\.write_all\(\s*data\s*\)\s*\?\s*;")
 _site("site_fb_add", _AR, "flush_buffers", r"self\s*\.add_part\(\s*stream_id\s*,\s*&data\s*,\s*metadata\s*\)\s*\?\s*;")
 _site("site_close_flush", _AR, "close", r"writer\s*\.flush\(\)\s*\?\s*;")
